@@ -7,7 +7,7 @@ package forwarder
 // connection loop (http.ReadRequest, scheme fix-up, modifier stack, upgrade handling) runs over scripted request
 // bytes; the next hop is a recording RoundTripper.
 //
-//vf:assume C01: header lists of <=2 (quick) / <=3 (thorough) fields drawn from a 26-entry pool of names (end-to-end, hop-by-hop, Connection with nominations, Via, X-Forwarded-*, User-Agent, Authorization) with symbolic 2-byte printable values where the value is free; methods GET/POST; absolute- and origin-form targets with an escaped query; HTTP/1.0 and 1.1; bodies: none / Content-Length / chunked in 1 or 2 chunks (3 symbolic bytes); first or second request of a keep-alive connection; directly or inside an intercepted (MITM) tunnel whose content is plaintext HTTP (the TLS handshake of a real interception and the upstream-proxy transport are outside)
+//vf:assume C01: header lists of <=2 fields drawn from a 26-entry pool of names (end-to-end, hop-by-hop, Connection with nominations, Via, X-Forwarded-*, User-Agent, Authorization) with symbolic 2-byte printable values where the value is free; methods GET/POST; absolute- and origin-form targets with an escaped query; HTTP/1.0 and 1.1; bodies: none / Content-Length / chunked in 1 or 2 chunks (3 symbolic bytes); first or second request of a keep-alive connection; directly or inside an intercepted (MITM) tunnel whose content is plaintext HTTP (the TLS handshake of a real interception and the upstream-proxy transport are outside)
 //vf:assume C01: the next hop is a recording RoundTripper: what http.Transport does afterwards (Accept-Encoding: gzip, serialisation, connection reuse) and bodies near the 4 KiB / 32 KiB buffer sizes are outside
 
 import (
@@ -91,10 +91,7 @@ func vfC01Scenario(tlsSession bool) {
 	hp := vfNewHTTPProxy(cfg)
 	rt := hp.transport.(*vfRoundTripper)
 
-	maxFields := 2
-	if vfrt.Thorough() {
-		maxFields = 3
-	}
+	maxFields := 2 // the thorough tier keeps <=2 fields and takes the full product of request shapes instead (3 fields x full product did not finish in 10 minutes)
 	nf := vfrt.Choice("fields", maxFields+1)
 	var sent []vfSent
 	for i := 0; i < nf; i++ {
